@@ -28,6 +28,7 @@ type c12Params struct {
 	Via         string `json:"via"` // pkg | cli | cli-gc
 	OrphanTable bool   `json:"orphan_table"`
 	ExpiredTx   bool   `json:"expired_tx,omitempty"` // a second, long-expired transaction holds every third ref
+	ShortTTL    bool   `json:"short_ttl,omitempty"`  // gc: transactionTTL is configured to two hours (the open transaction is seconds old)
 }
 
 func c12RefName(rng *rand.Rand, j int, txid string) string {
@@ -190,6 +191,15 @@ func c12Run(c *fw.Case, env *fw.Env) *fw.Obs {
 		if p.Via == "cli-gc" {
 			cmd = "gc"
 		}
+		if p.ShortTTL && label == "first" {
+			if out, err, pn := mon.Wrgl(wrglDir, nil, "config", "set", "transactionTTL", "2h"); err != nil || pn != "" {
+				o.Status = "inconclusive"
+				o.Note = fmt.Sprintf("config set transactionTTL: %v %s %s", err, pn, out)
+				open()
+				return false
+			}
+			o.Ev("gc_runs_with_a_two_hour_transaction_ttl", 1)
+		}
 		out, err, pn := mon.Wrgl(wrglDir, nil, cmd, "--no-progress")
 		if pn != "" {
 			o.Violate("panic/wrgl-"+cmd+"/"+class, "%s: %s", label, pn)
@@ -347,8 +357,9 @@ func init() {
 	fw.Register(&fw.Property{
 		ID:          "C12",
 		Level:       "exploration",
-		Rule:        "generated repositories: commit DAGs (several roots) whose tables share blocks, also across two different keys (more block indices than blocks); refs of every kind (heads, tags, remotes, txs of a transaction that is open, txs of one that expired 45 days ago - discarded by gc, untouched by prune) on a random subset of commits, the rest unreferenced; 0..3 commits made shallow by removing their table objects; optional orphan table; some repositories of several hundred keys on the real badger store; prune.Prune on the in-memory store, `wrgl prune` / `wrgl gc` on badger+sqlite; key sets and bytes before/after compared against graph-model reachability: commits = reachable set exactly, every object of a reachable commit byte-identical, tables/blocks referenced only by removed commits gone, every reachable full commit read back row by row through the structural monitor, no panic, second prune changes nothing; distinct_nontrivial = distinct (entry, shallow, size, removed count, seed)",
-		Assumptions: []string{"objects referenced by nothing at all (orphans that never belonged to a commit) may or may not be removed"},
+		Rule:        "generated repositories: commit DAGs (several roots) whose tables share blocks, also across two different keys (more block indices than blocks); refs of every kind (heads, tags, remotes, txs of a transaction that is open, txs of one that expired 45 days ago - discarded by gc, untouched by prune; in half of the gc cases transactionTTL is configured to two hours and the process runs west of UTC) on a random subset of commits, the rest unreferenced; 0..3 commits made shallow by removing their table objects; optional orphan table; some repositories of several hundred keys on the real badger store; prune.Prune on the in-memory store, `wrgl prune` / `wrgl gc` on badger+sqlite; key sets and bytes before/after compared against graph-model reachability: commits = reachable set exactly, every object of a reachable commit byte-identical, tables/blocks referenced only by removed commits gone, every reachable full commit read back row by row through the structural monitor, no panic, second prune changes nothing; distinct_nontrivial = distinct (entry, shallow, size, removed count, seed)",
+		Assumptions: []string{"objects referenced by nothing at all (orphans that never belonged to a commit) may or may not be removed", "the worker runs in a time zone west of UTC (TZ=America/Los_Angeles): transaction times are stored and compared as local-time text"},
+		Env:         []string{"TZ=America/Los_Angeles"},
 		Gen: func(tier string, seed int64) []fw.Case {
 			l := fw.NewCaseList("C12", tier, seed)
 			rng := l.Rng()
@@ -374,7 +385,7 @@ func init() {
 			}
 			// gc = transaction clean-up + prune: repositories with an open transaction holding refs
 			for i := 0; i < l.N(20, 400); i++ {
-				l.Add("gc", c12Params{N: 3 + rng.Intn(8), BaseRows: 4, Refs: 6 + rng.Intn(6), Via: "cli-gc", ExpiredTx: i%2 == 0}, 0)
+				l.Add("gc", c12Params{N: 3 + rng.Intn(8), BaseRows: 4, Refs: 6 + rng.Intn(6), Via: "cli-gc", ExpiredTx: i%2 == 0, ShortTTL: i%4 < 2}, 0)
 				if i%4 == 1 {
 					l.Add("prune", c12Params{N: 3 + rng.Intn(8), BaseRows: 4, Refs: 6 + rng.Intn(6), Via: "cli", ExpiredTx: true}, 0)
 				}
